@@ -37,7 +37,7 @@ def define(text, name):
 
 
 # ---------------------------------------------------------------- C integer expression -> Lean (Nat)
-TOK = re.compile(r'\s*(?:(\d+)[uUlL]*|([A-Za-z_]\w*)|(<<|>>|<=|>=|==|!=|&&|\|\||[-+*/%()<>,?:!&|^~]))')
+TOK = re.compile(r'\s*(?:(\d+)(?:\.0+)?[uUlLfF]*|([A-Za-z_]\w*)|(<<|>>|<=|>=|==|!=|&&|\|\||[-+*/%()<>,?:!&|^~]))')
 
 
 def tokenize(e):
